@@ -24,11 +24,13 @@ const (
 	keySkipped = "C27-skipped-entry-eats-limit"
 	keyMarker  = "C27-marker-not-relative-to-prefix-dir"
 	keyNested  = "C27-nested-marker-exceeds-maxkeys"
+	keyDirMark = "C27-marker-equal-to-directory-name"
+	keyPfxSkip = "C27-marker-subdir-ignores-name-prefix"
 )
 
 func TestMain(m *testing.M) {
-	vlib.Rule("C27: one fresh bucket per case on a real master+volume+filer+s3 child-process cluster: 0-20 keys over paths of {a,b,ab,a.b} depth<=3 (no key is a path ancestor of another), optionally an in-flight or a completed multipart upload (so .uploads exists) and optionally some keys deleted again (leaving empty directories); 2-6 listing sessions per bucket: ListObjects V1/V2 x prefix (any string prefix of a key, '', 'zz', 'a/', 'a/b') x delimiter {'', '/'} x max-keys {1..5, absent} x continuation style {returned token: NextContinuationToken / NextMarker; last key: start-after / marker = last Contents key (delimiter '' only)}, followed page by page until IsTruncated=false; against `weed s3` with and without -allowEmptyFolder. Plus a bounded-exhaustive enumerator: fixed trees (all 128 subsets of a 7-key universe in thorough) x 9 prefixes x delimiter x max-keys {1,2,3,absent} x every continuation style. Oracle: S3 semantics over the key set, order-insensitive: page size <= max-keys, only matching keys, no .uploads internals, common prefixes only with '/', every expected key / common prefix exactly once over the pages, pagination terminates; afterwards every key still GETs its content. Non-trivial = a truncated listing (>=2 pages) with a prefix or a delimiter.")
-	vlib.Assume("bucket contents are those SeaweedFS can hold: no key is a path ancestor (directory) of another key, no key ends in '/'; listing order is not compared with S3's byte order (the statement only asks for exactly-once enumeration); marker / start-after / continuation-token are only used to continue a previous page; prefixes do not start with '/'")
+	vlib.Rule("C27: one fresh bucket per case on a real master+volume+filer+s3 child-process cluster: 0-20 keys over paths of {a,b,ab,a.b} depth<=3 (no key is a path ancestor of another), optionally an in-flight or a completed multipart upload (so .uploads exists) and optionally some keys deleted again (leaving empty directories); 2-6 listing sessions per bucket: ListObjects V1/V2 x prefix (any string prefix of a key, '', 'zz', 'a/', 'a/b') x delimiter {'', '/'} x max-keys {1..5, absent} x continuation style {returned token: NextContinuationToken / NextMarker; last key: start-after / marker = last Contents key (delimiter '' only)}, one third of the delimiter-less sessions starting from an arbitrary client-chosen marker (V1) / start-after (V2) drawn from keys, cuts of keys, directory names and strings before / inside / after the prefix range, followed page by page until IsTruncated=false; against `weed s3` with and without -allowEmptyFolder. Plus a bounded-exhaustive enumerator: fixed trees (all 128 subsets of a 7-key universe in thorough) x 9 prefixes x delimiter x max-keys {1,2,3,absent} x every continuation style x {no, 8 fixed} first markers. Oracle: S3 semantics over the key set, order-insensitive: page size <= max-keys, only matching keys, no .uploads internals, common prefixes only with '/', every expected key / common prefix exactly once over the pages, pagination terminates; afterwards every key still GETs its content. Non-trivial = a truncated listing (>=2 pages) with a prefix or a delimiter.")
+	vlib.Assume("bucket contents are those SeaweedFS can hold: no key is a path ancestor (directory) of another key, no key ends in '/'; listing order is not compared with S3's byte order (the statement only asks for exactly-once enumeration); an arbitrary first marker / start-after is only combined with delimiter '' and judged by set semantics: keys after it in byte order (S3) and in directory-tree order (SeaweedFS) must be enumerated, keys after it in neither must not, keys on which the two orders disagree (names like a.b next to a/) may; prefixes do not start with '/'")
 	vlib.Assume("with -allowEmptyFolder a directory emptied by deletes may be reported as a common prefix (that is what the flag is for); without the flag it must not appear")
 	vlib.Main(m)
 }
@@ -266,6 +268,7 @@ type listReq struct {
 	delim   string
 	maxKeys int    // 0 = parameter absent
 	style   string // "token" | "lastkey"
+	start   string // arbitrary client-chosen marker (V1) / start-after (V2) of the first request; "" = from the beginning
 }
 
 func (r listReq) String() string {
@@ -277,7 +280,11 @@ func (r listReq) String() string {
 	if r.maxKeys > 0 {
 		mk = strconv.Itoa(r.maxKeys)
 	}
-	return fmt.Sprintf("%s prefix=%q delimiter=%q max-keys=%s continue-by=%s", v, r.prefix, r.delim, mk, r.style)
+	st := ""
+	if r.start != "" {
+		st = fmt.Sprintf(" first-marker/start-after=%q", r.start)
+	}
+	return fmt.Sprintf("%s prefix=%q delimiter=%q max-keys=%s continue-by=%s%s", v, r.prefix, r.delim, mk, r.style, st)
 }
 
 // expected computes the S3 answer over the key set.
@@ -299,13 +306,44 @@ func expected(keys []string, prefix, delim string) (ks, cps map[string]bool) {
 	return
 }
 
+// afterByteOrder: S3 compares keys as byte strings.
+func afterByteOrder(k, m string) bool { return k > m }
+
+// afterTreeOrder: SeaweedFS enumerates a directory tree, i.e. compares keys component by component
+// ("a/x" comes before "a.b" there, after it in byte order).
+func afterTreeOrder(k, m string) bool {
+	ks, ms := strings.Split(k, "/"), strings.Split(m, "/")
+	for i := 0; i < len(ks) && i < len(ms); i++ {
+		if ks[i] != ms[i] {
+			return ks[i] > ms[i]
+		}
+	}
+	return len(ks) > len(ms)
+}
+
 // runSession follows one listing to its end and checks it. It returns the
 // number of pages and a trace of the pages.
 func runSession(b *bucketState, r listReq) (pages int, trace string, cut bool, err error) {
 	expK, expCP := expected(b.keys, r.prefix, r.delim)
+	// an arbitrary first marker (only used without a delimiter): keys after it in both
+	// orders must come, keys not after it in both orders must not, the others may
+	optional := map[string]bool{}
+	if r.start != "" {
+		for k := range expK {
+			bo, to := afterByteOrder(k, r.start), afterTreeOrder(k, r.start)
+			switch {
+			case bo && to:
+			case !bo && !to:
+				delete(expK, k)
+			default:
+				delete(expK, k)
+				optional[k] = true
+			}
+		}
+	}
 	seenK, seenCP := map[string]bool{}, map[string]bool{}
 	var tr []string
-	cont := ""
+	cont := r.start
 	pageCap := 2*(len(b.keys)+len(b.emptyDirs)) + 10
 	for {
 		var params [][2]string
@@ -320,6 +358,8 @@ func runSession(b *bucketState, r listReq) (pages int, trace string, cut bool, e
 		}
 		if cont != "" {
 			switch {
+			case r.v2 && pages == 0:
+				params = append(params, [2]string{"start-after", cont}) // the client's own start position
 			case r.v2 && r.style == "token":
 				params = append(params, [2]string{"continuation-token", cont})
 			case r.v2:
@@ -363,7 +403,10 @@ func runSession(b *bucketState, r listReq) (pages int, trace string, cut bool, e
 			if !b.live[k] {
 				return fail("key %q is not in the bucket", k)
 			}
-			if !expK[k] {
+			if !expK[k] && !optional[k] {
+				if r.start != "" && r.delim == "" {
+					return fail("key %q is not after the marker / start-after %q", k, r.start)
+				}
 				return fail("key %q must be rolled up into a common prefix (delimiter %q)", k, r.delim)
 			}
 			if seenK[k] {
@@ -499,6 +542,16 @@ func classes(b *bucketState, r listReq, pages int) []string {
 		pg = "pages-3+"
 	}
 	out := []string{v + "-" + d + "-" + r.style, pg, prefixKind(b, r.prefix), "multipart-" + b.mp}
+	if r.start != "" {
+		switch {
+		case strings.HasPrefix(r.start, r.prefix):
+			out = append(out, "start-inside-prefix-range")
+		case r.start < r.prefix:
+			out = append(out, "start-before-prefix-range")
+		default:
+			out = append(out, "start-after-prefix-range")
+		}
+	}
 	if len(b.emptyDirs) > 0 {
 		out = append(out, "has-empty-dirs")
 	}
@@ -508,6 +561,53 @@ func classes(b *bucketState, r listReq, pages int) []string {
 	return out
 }
 
+// allDirs returns every directory path (no trailing '/') the bucket's keys ever implied.
+func (b *bucketState) allDirs() []string {
+	set := map[string]bool{}
+	for _, l := range [][]string{b.keys, b.deleted} {
+		for _, k := range l {
+			parts := strings.Split(k, "/")
+			for i := 1; i < len(parts); i++ {
+				set[strings.Join(parts[:i], "/")] = true
+			}
+		}
+	}
+	var out []string
+	for d := range set {
+		out = append(out, d)
+	}
+	sort.Strings(out)
+	return out
+}
+
+// genStart draws an arbitrary client-chosen marker / start-after: keys, cuts of keys,
+// directory names, and strings sorting before / inside / after the prefix range.
+func genStart(t *rapid.T, b *bucketState, prefix string) string {
+	var cands []string
+	all := append(append([]string(nil), b.keys...), b.deleted...)
+	if len(all) > 0 {
+		k := rapid.SampledFrom(all).Draw(t, "startKey")
+		cands = append(cands, k, k, k[:rapid.IntRange(1, len(k)).Draw(t, "startCut")], k+"0", k+"/x")
+	}
+	if ds := b.allDirs(); len(ds) > 0 {
+		d := rapid.SampledFrom(ds).Draw(t, "startDir")
+		cands = append(cands, d, d+"/", d+"/0", d+"/zz")
+	}
+	cands = append(cands, "A", "0", "zz", "c", "a/x", "b/a", "b/c/1", "ab/0", "a.b/a.b")
+	if prefix != "" {
+		cands = append(cands, prefix, prefix+"0", prefix+"a", prefix+"ab/0", prefix+"b/zz", prefix+"zz", prefix[:len(prefix)-1])
+		if len(prefix) > 1 {
+			// just before and just after the whole prefix range
+			cands = append(cands, prefix[:len(prefix)-1]+string(rune(prefix[len(prefix)-1]-1))+"z", prefix[:len(prefix)-1]+string(rune(prefix[len(prefix)-1]+1)))
+		}
+	}
+	st := rapid.SampledFrom(cands).Draw(t, "start")
+	if st == "" || strings.HasPrefix(st, "/") || strings.Contains(st, "//") {
+		return "A"
+	}
+	return st
+}
+
 // applyKnown narrows a request exactly as far as the listed findings require.
 func applyKnown(b *bucketState, r listReq) listReq {
 	// .uploads only sits in the bucket root and only a listing of the root with an empty
@@ -515,6 +615,28 @@ func applyKnown(b *bucketState, r listReq) listReq {
 	if vlib.Known(keySkipped) && r.maxKeys > 0 && (len(b.emptyDirs) > 0 || b.mp != "none" && r.prefix == "") {
 		vlib.Excluded(keySkipped)
 		r.maxKeys = 0
+	}
+	if r.start != "" {
+		if vlib.Known(keyDirMark) {
+			// a marker naming a directory (at its own level) makes the listing skip that directory
+			for _, d := range b.allDirs() {
+				if r.start == d {
+					vlib.Excluded(keyDirMark)
+					r.start += "/"
+				}
+			}
+		}
+		if vlib.Known(keyPfxSkip) {
+			// a marker inside a sub-directory (of the prefix' directory) whose name does not match the name part of the prefix
+			i := strings.LastIndex(r.prefix, "/") + 1
+			dir, name := r.prefix[:i], r.prefix[i:]
+			if name != "" && strings.HasPrefix(r.start, dir) {
+				if rest := r.start[len(dir):]; strings.Contains(rest, "/") && !strings.HasPrefix(rest[:strings.Index(rest, "/")], name) {
+					vlib.Excluded(keyPfxSkip)
+					r.start = ""
+				}
+			}
+		}
 	}
 	if vlib.Known(keyMarker) && r.style == "lastkey" && strings.Contains(r.prefix, "/") {
 		vlib.Excluded(keyMarker)
@@ -587,6 +709,8 @@ func TestPropListPagination(t *testing.T) {
 			r.style = rapid.SampledFrom([]string{"token", "lastkey"}).Draw(t, "style")
 			if r.delim != "" {
 				r.style = "token"
+			} else if rapid.IntRange(0, 2).Draw(t, "arbitraryStart") == 0 {
+				r.start = genStart(t, b, r.prefix)
 			}
 			r = applyKnown(b, r)
 			pages, trace, cut, err := runSession(b, r)
@@ -666,11 +790,19 @@ func TestPropListExhaustive(t *testing.T) {
 				for _, delim := range []string{"", "/"} {
 					for _, mk := range []int{1, 2, 3, 0} {
 						for _, v2 := range []bool{false, true} {
-							for _, style := range []string{"token", "lastkey"} {
-								if style == "lastkey" && delim != "" {
+							for _, sty := range []string{"token", "lastkey", "@a/ab", "@a/ab/a", "@a.b", "@b", "@b/a", "@A", "@a/0", "@zz"} {
+								style, start := sty, ""
+								if sty[0] == '@' {
+									// an arbitrary first marker / start-after (no delimiter, max-keys 1 or absent)
+									style, start = "token", sty[1:]
+									if mk == 2 || mk == 3 {
+										continue
+									}
+								}
+								if (style == "lastkey" || start != "") && delim != "" {
 									continue
 								}
-								r := applyKnown(b, listReq{v2: v2, prefix: prefix, delim: delim, maxKeys: mk, style: style})
+								r := applyKnown(b, listReq{v2: v2, prefix: prefix, delim: delim, maxKeys: mk, style: style, start: start})
 								pages, trace, cut, err := runSession(b, r)
 								if err != nil {
 									t.Fatalf("%s\n  %s\n  violation: %v\n  pages: %s", b.describe(), r, err, trace)
@@ -693,5 +825,5 @@ func TestPropListExhaustive(t *testing.T) {
 			b.drop()
 		}
 	}
-	vlib.Exhaustive(fmt.Sprintf("%d-trees-x-9-prefixes-x-delimiter-x-maxkeys-x-styles", len(subsets)), true)
+	vlib.Exhaustive(fmt.Sprintf("%d-trees-x-9-prefixes-x-delimiter-x-maxkeys-x-styles-x-8-start-markers", len(subsets)), true)
 }
